@@ -307,10 +307,25 @@ def build(log=lambda s: sys.stderr.write("[build] " + s + "\n")):
     with open(os.path.join(SIM, "go.mod")) as f:
         gomod = f.read()
     gomod = gomod.replace("=> /repo", "=> " + repo)
-    modfile = os.path.join(BUILD, "go.mod")
+    # one module file per tree checked (sensitivity runs build several scratch trees side by side), one build at a time
+    tag = hashlib.sha256(repo.encode()).hexdigest()[:8]
+    moddir = os.path.join(BUILD, "mod-" + tag)
+    os.makedirs(moddir, exist_ok=True)
+    modfile = os.path.join(moddir, "go.mod")
+    import fcntl
+    lockf = open(os.path.join(BUILD, ".build.lock"), "w")
+    fcntl.flock(lockf, fcntl.LOCK_EX)
+    try:
+        return _build_locked(repo, modfile, gomod, t0, log)
+    finally:
+        fcntl.flock(lockf, fcntl.LOCK_UN)
+        lockf.close()
+
+
+def _build_locked(repo, modfile, gomod, t0, log):
     write_if_changed(modfile, gomod)
     with open(os.path.join(repo, "go.sum")) as f:
-        write_if_changed(os.path.join(BUILD, "go.sum"), f.read())
+        write_if_changed(os.path.join(os.path.dirname(modfile), "go.sum"), f.read())
     # tools
     instr = os.path.join(BUILD, "instr")
     src = os.path.join(SIM, "instr", "main.go")
@@ -339,7 +354,10 @@ def build(log=lambda s: sys.stderr.write("[build] " + s + "\n")):
     ovjson = os.path.join(ovdir, "full-overlay.json")
     write_if_changed(ovjson, json.dumps({"Replace": replace}, indent=0, sort_keys=True))
     binp = os.path.join(BUILD, "simworker-" + os.path.basename(ovdir))
-    run([GO, "test", "-c", "-modfile=" + modfile, "-overlay", ovjson, "-o", binp, "./worker"], cwd=SIM, what="compile worker")
+    # compile next to the final name and rename: a check that is running with the previous binary keeps its inode
+    tmpbin = "%s.tmp%d" % (binp, os.getpid())
+    run([GO, "test", "-c", "-modfile=" + modfile, "-overlay", ovjson, "-o", tmpbin, "./worker"], cwd=SIM, what="compile worker")
+    os.replace(tmpbin, binp)
     log("worker built in %.1fs: %s" % (time.time() - t0, binp))
     return binp
 
